@@ -96,6 +96,11 @@ impl RunOut {
         self.events += 1;
         if self.keep_log {
             self.log.push(format!("#{} t={} {}", self.events, self.sim_time_us, self.buf));
+            // debugging aid for runs that do not terminate: CRRL_SIM_STREAM=1 prints events as they happen
+            static STREAM: std::sync::OnceLock<bool> = std::sync::OnceLock::new();
+            if *STREAM.get_or_init(|| std::env::var("CRRL_SIM_STREAM").is_ok()) {
+                eprintln!("#{} t={} {}", self.events, self.sim_time_us, self.buf);
+            }
         }
         self.events
     }
